@@ -429,8 +429,10 @@ class SetOp(Op):
                 qn = w.m.nodes[q]
                 if qn.kind not in FIELDS or f2 not in FIELDS[qn.kind] or qn.kind == "ir":
                     return False
-                if meth in MUTATING_SET and (FIELDS[qn.kind][f2] != kinds or meth not in ("update", "ior", "isub", "iand", "ixor") or q == op["parent"]):
+                if meth in MUTATING_SET and (FIELDS[qn.kind][f2] != kinds or meth not in ("update", "ior", "isub", "iand", "ixor")):
                     return False
+                if meth in MUTATING_SET and q == op["parent"] and (f2 != op["field"] or a.get("only") is not None):
+                    return False  # s |= s, s -= s, s ^= s, s.update(s): the collection itself, unfiltered
         if meth in ("add", "update", "ior", "ixor"):
             # everything that may be inserted must be of the right kind
             owners = {a["wrapper"][0] for a in op.get("args", []) if isinstance(a, dict) and "wrapper" in a}
@@ -611,6 +613,8 @@ class SetOp(Op):
                         w.counters["probe:bulk_move_from_other_collection"] += 1
                         if a.get("lazy"):
                             w.counters["probe:bulk_move_through_lazy_view"] += 1
+                        if a["wrapper"][0] == P:
+                            w.counters["probe:collection_given_itself"] += 1
                     elif isinstance(a, dict):
                         seq.extend(a["items"][: a["raise_after"]])
                         failed = SimFault
